@@ -64,6 +64,27 @@ def run(ctx, replay):
                 return lines[:i] + lines[i + 1:]
         return None
     vcore.corrupt_selftest(ctx, "PipelineTrace", "PipelineTrace.cfg", tr, drop, "one FinMark event dropped")
+    # "each request produces one response, never none and never two": the leaf's answer (LeafExecuteContext.SendResponse
+    # called by the completion callback of a real pipeline), every receiver's stream recorded
+    ctx.model_check("LeafResponse", "MCLeafResponse.cfg", timeout=300)
+    ctx.model_check("LeafResponse", "MCLeafResponse_dev_fallthrough.cfg", expect="violation", timeout=300)
+    trl = os.path.join(ctx.scratch, "leafresp.ndjson")
+    summ, rc, _ = ctx.run_vdrive(["leafresp", "--seed", ctx.seed, "--random", 200 if thorough else 30, "--out", trl], timeout=600)
+    for u in summ["unresolved"]:
+        raise vcore.Unresolved("leafresp driver: %s" % u)
+    ctx.extra["leaf_response_cases"] = summ["traces"]
+    vcore.validate_all(ctx, "LeafResponseTrace", "LeafResponseTrace.cfg", trl, dfs=False)
+
+    def second_response(lines):
+        for i, ln in enumerate(lines):
+            if '"ev":"Proj"' in ln and '"r1":["' in ln:
+                d = json.loads(ln)
+                d["sent"]["r1"] = d["sent"]["r1"] + ["result"]
+                out = list(lines)
+                out[i] = json.dumps(d, separators=(",", ":")) + "\n"
+                return out
+        return None
+    vcore.corrupt_selftest(ctx, "LeafResponseTrace", "LeafResponseTrace.cfg", trl, second_response, "a receiver gets a second response")
     ctx.assumptions += [
         "stage bodies are scripted (ok/err/panic); the pipeline, state machine, baseStage.Execute and the worker pool are the real code",
         "schedules are explored at the granularity of the gates (stage body, NextStages, error handler) plus free-running timing",
